@@ -91,13 +91,15 @@ def run_shards(prop, tier, seed, descs, run_dir):
 
 
 def merge(results):
-    m = {'counts': Counter(), 'monitors': Counter(), 'states': {}, 'samples': [], 'violations': [],
+    m = {'anomalies': Counter(), 'anomaly_examples': {}, 'counts': Counter(), 'monitors': Counter(), 'states': {}, 'samples': [], 'violations': [],
          'vcount': Counter(), 'known_hits': Counter(), 'known_examples': {}, 'notes': {}, 'problems': []}
     distinct = set()
     for r in results:
         if r.get('status') != 'ok':
             m['problems'].append('%s: %s' % (r.get('status'), (r.get('error') or '')[-2500:]))
-        for k in ('counts', 'monitors', 'vcount', 'known_hits'):
+        for k, v in r.get('anomaly_examples', {}).items():
+            m['anomaly_examples'].setdefault(k, v)
+        for k in ('counts', 'monitors', 'vcount', 'known_hits', 'anomalies'):
             m[k].update(r.get(k, {}))
         for k, v in r.get('states', {}).items():
             m['states'].setdefault(k, set()).update(v)
@@ -193,6 +195,8 @@ def check(prop, tier):
         'monitors': dict(sorted(m['monitors'].items())),
         'distinct_states_seen': {k: len(v) for k, v in sorted(m['states'].items())},
         'state_examples': {k: sorted(v)[:12] for k, v in sorted(m['states'].items())},
+        'probe_anomalies (diagnostic, never a verdict)': dict(m['anomalies']),
+        'probe_anomaly_examples': m['anomaly_examples'],
         'known_findings_hit': dict(m['known_hits']),
         'known_finding_examples': m['known_examples'],
         'unexplained_violation_kinds': dict(m['vcount']),
@@ -226,6 +230,8 @@ def check(prop, tier):
     for fid, n in sorted(m['known_hits'].items()):
         e = open_known.get(fid, {})
         print('KNOWN-FINDING: property=%s %s: %s (observed %d times this run)' % (prop, fid, e.get('what', ''), n))
+    for k, n in sorted(m['anomalies'].items()):
+        print('PROBE-ANOMALY (diagnostic only) property=%s %s x%d e.g. %s' % (prop, k, n, json.dumps(m['anomaly_examples'].get(k), default=repr)[:300]))
     for p in problems:
         print('INCONCLUSIVE property=%s reason=%s' % (prop, p.replace('\n', ' | ')[:1500]))
     for rec, path in replay_paths:
